@@ -291,6 +291,35 @@ def oracle(case):
             msg = oracle_method(m, V, impl_of(m), impl_of)
             if msg:
                 return msg + (f" [object built through {path}]" if path != "setters" else "")
+    # a returned value belongs to the caller: it must still be what was returned after the same and other particles were asked
+    # again (results kept in a list, compared between particles)
+    for path in paths:
+        p = build(V, path)
+        held, snap = {}, {}
+        with warnings.catch_warnings(), np.errstate(all="ignore"):
+            warnings.simplefilter("ignore")
+            for m in methods:
+                try:
+                    held[m] = getattr(p, m)()
+                    snap[m] = np.array(held[m], dtype=float, copy=True)
+                except Exception:
+                    pass
+            other = dict(V)
+            for a in ("x", "y", "z", "px", "py", "pz", "t", "E"):
+                if other.get(a) is not None and math.isfinite(other[a]):
+                    other[a] = other[a] * 2.0 + 1.0
+            q2 = build(other, path)
+            for m in methods:
+                for obj in (p, q2):
+                    try:
+                        getattr(obj, m)()
+                    except Exception:
+                        pass
+        for m in held:
+            now = np.array(held[m], dtype=float)
+            if now.shape != snap[m].shape or not np.array_equal(now, snap[m], equal_nan=True):
+                return (f"{m}(): the value returned for this particle was {snap[m].tolist()} and reads {now.tolist()} after the "
+                        f"accessors of this particle again and of another particle were called - a returned result is not the caller's own")
     if case.get("kind") == "unset":
         return None
     # symmetries (inputs of the transformed particle must stay inside the domain: same magnitudes)
